@@ -290,6 +290,16 @@ func (x *fnv) checkPost(st *State, fr *frame, paramVals map[string]Value, idx in
 	// only if the contract declares it (modifies captured(name)): such a variable is shared by every invocation of
 	// the literal (concurrent runs included)
 	if idx == 0 && x.fi.Lit != nil {
+		for _, name := range fc.Frozen {
+			why := x.frozenViolation(name)
+			g := x.c.True()
+			if why != "" {
+				g = x.c.False()
+				x.assumeNote("captures frozen " + name + ": " + why)
+			}
+			tmp := st.Clone()
+			x.oblige(tmp, "frame", "captured_frozen."+name, g, x.fi.Body.Rbrace, &Clause{Src: "captures frozen " + name + " (" + why + ")", Label: "captured_frozen." + name})
+		}
 		declared := map[string]bool{}
 		for _, cl := range fc.Modifies {
 			collectCaptured(cl.Expr, declared)
@@ -585,6 +595,106 @@ func collectCaptured(ex SExpr, out map[string]bool) {
 			}
 		}
 	}
+}
+
+// frozenViolation checks a `captures frozen v` declaration of the literal under verification against its enclosing
+// function: the variable must be captured by the literal, and must not be assigned after the literal was created.
+// "After" is decided on the syntax of the enclosing body: (a) the literal sits in a loop, the variable is declared
+// outside that loop's body (a loop variable of a module whose go directive is older than 1.22 is one variable for
+// all iterations) and is assigned in the loop: the next iteration changes what the literal of this iteration sees;
+// (b) the variable is assigned by a statement that follows the literal in the enclosing function. It returns a
+// description of the offending assignment, or "".
+func (x *fnv) frozenViolation(name string) string {
+	lit := x.fi.Lit
+	outer := x.fi.Outer
+	if lit == nil || outer == nil || outer.Body == nil {
+		return "not a function literal"
+	}
+	// the captured object
+	var obj *types.Var
+	ast.Inspect(lit.Body, func(nd ast.Node) bool {
+		if id, ok := nd.(*ast.Ident); ok && id.Name == name && obj == nil {
+			if o, ok := x.info.Uses[id].(*types.Var); ok && !o.IsField() && o.Pkg() != nil && o.Parent() != o.Pkg().Scope() &&
+				!(o.Pos() >= lit.Pos() && o.Pos() <= lit.End()) {
+				obj = o
+			}
+		}
+		return true
+	})
+	if obj == nil {
+		return "the literal does not capture a variable of that name"
+	}
+	// innermost loop of the enclosing function that contains the literal
+	var loop ast.Node
+	var loopBody *ast.BlockStmt
+	ast.Inspect(outer.Body, func(nd ast.Node) bool {
+		if nd == nil || nd.Pos() > lit.Pos() || nd.End() < lit.End() {
+			return nd != nil && !(nd.Pos() > lit.End())
+		}
+		switch l := nd.(type) {
+		case *ast.ForStmt:
+			loop, loopBody = l, l.Body
+		case *ast.RangeStmt:
+			loop, loopBody = l, l.Body
+		}
+		return true
+	})
+	assigns := func(root ast.Node, from token.Pos) token.Pos {
+		var hit token.Pos
+		is := func(e ast.Expr) bool {
+			id, ok := ast.Unparen(e).(*ast.Ident)
+			return ok && (x.info.Uses[id] == obj || x.info.Defs[id] == obj)
+		}
+		ast.Inspect(root, func(nd ast.Node) bool {
+			if hit.IsValid() || nd == nil {
+				return false
+			}
+			if nd.Pos() >= lit.Pos() && nd.End() <= lit.End() {
+				return false // the literal's own writes are the closure-frame check's business
+			}
+			switch st := nd.(type) {
+			case *ast.AssignStmt:
+				for _, l := range st.Lhs {
+					if is(l) && st.Pos() >= from {
+						hit = st.Pos()
+					}
+				}
+			case *ast.IncDecStmt:
+				if is(st.X) && st.Pos() >= from {
+					hit = st.Pos()
+				}
+			case *ast.RangeStmt:
+				if (st.Key != nil && is(st.Key)) || (st.Value != nil && is(st.Value)) {
+					if st.Pos() >= from {
+						hit = st.Pos()
+					}
+				}
+			case *ast.UnaryExpr:
+				if st.Op == token.AND && is(st.X) && st.Pos() >= from {
+					hit = st.Pos() // address taken: may be written through the pointer
+				}
+			}
+			return true
+		})
+		return hit
+	}
+	if loop != nil {
+		declaredInBody := obj.Pos() >= loopBody.Pos() && obj.Pos() <= loopBody.End()
+		perIteration := declaredInBody
+		if !declaredInBody && obj.Pos() >= loop.Pos() && obj.Pos() < loopBody.Pos() {
+			// a variable of the loop header: one per iteration only from go 1.22 on
+			perIteration = x.p.GoAtLeast(1, 22)
+		}
+		if !perIteration {
+			if p := assigns(loop, token.NoPos); p.IsValid() {
+				return "assigned at " + x.posStr(p) + " by the loop that creates the literal (one variable for all iterations)"
+			}
+		}
+	}
+	if p := assigns(outer.Body, lit.End()); p.IsValid() {
+		return "assigned at " + x.posStr(p) + " after the literal was created"
+	}
+	return ""
 }
 
 // capturedWrites lists (sorted) the variables declared outside the literal under verification that its body, or a
